@@ -436,6 +436,27 @@ Proof.
   - apply Nat.ltb_lt. destruct H as [_ H]. apply prefix_length in H. lia.
 Qed.
 
+Lemma np_child_ext d n : np_child d (ext d [n]) = true.
+Proof.
+  unfold np_child. apply andb_true_iff. split.
+  - apply np_inside_eq_iff. apply np_le_ext.
+  - apply Nat.eqb_eq. unfold ext. simpl. rewrite app_length. simpl. lia.
+Qed.
+
+Lemma np_within_ext k d r :
+  r <> [] -> List.length r <= k -> np_within k d (ext d r) = true.
+Proof.
+  intros H1 H2. unfold np_within. apply andb_true_iff. split.
+  - apply np_inside_ext. exact H1.
+  - apply Nat.leb_le. unfold ext. simpl. rewrite app_length. lia.
+Qed.
+
+Lemma np_child_inside d p : np_child d p = true -> np_inside d p = true.
+Proof.
+  unfold np_child, np_inside. intro H. apply andb_true_iff in H. destruct H as [H1 H2].
+  apply Nat.eqb_eq in H2. rewrite H1. simpl. apply Nat.ltb_lt. lia.
+Qed.
+
 (* ------------------------------------------------------------------------ *)
 (** * Part D -- file names (adapter templates, T-data) *)
 
@@ -1003,7 +1024,7 @@ Qed.
 Lemma files_nodup i : In i (s_insts st) -> NoDup (map npath (map jn (mfiles h st i))).
 Proof.
   intro Hi. rewrite map_map. apply (NoDup_map_by _ snd).
-  - apply mfiles_names_nodup; [apply (G_noslash h st G) | apply (G_pids h st G)]; exact Hi.
+  - exact (mfiles_names_nodup h st i (G_pids h st G i Hi)).
   - intros x y Hx Hy E. rewrite (npath_jn i x Hi Hx), (npath_jn i y Hi Hy) in E.
     unfold ext in E. inversion E as [[E1 E2]]. apply app_inj_tail in E2. apply E2.
 Qed.
@@ -1024,28 +1045,30 @@ Qed.
 
 Lemma script_file_inside i n :
   In i (s_insts st) -> okcomp n ->
-  inside (if is_empty (s_tmp st) then workspace h st i else s_tmp st)
-         (join2 (scr_dir h st i) n) = true.
+  (if is_empty (s_tmp st) then child (workspace h st i) (join2 (scr_dir h st i) n)
+   else within 2 (s_tmp st) (join2 (scr_dir h st i) n)) = true.
 Proof.
-  intros Hi [K1 K2]. unfold inside. rewrite npath_join2 by assumption.
+  intros Hi [K1 K2]. unfold child, within. rewrite npath_join2 by assumption.
   rewrite (npath_scr_dir i Hi). unfold sdn.
   destruct (is_empty (s_tmp st)) eqn:E.
-  - rewrite (npath_workspace i Hi). apply (np_inside_ext (wsn i) [n]). discriminate.
-  - change (np_inside (npath (s_tmp st)) (ext (ext (npath (s_tmp st)) [h (iname i)]) [n]) = true).
-    rewrite ext_ext. apply np_inside_ext. discriminate.
+  - rewrite (npath_workspace i Hi). apply (np_child_ext (wsn i) n).
+  - change (np_within 2 (npath (s_tmp st)) (ext (ext (npath (s_tmp st)) [h (iname i)]) [n]) = true).
+    rewrite ext_ext. apply np_within_ext; [discriminate | simpl; lia].
 Qed.
 
 Lemma out_file_inside i n :
   In i (s_insts st) -> okcomp n ->
-  inside (workspace h st i) (join2 (workspace h st i) n) = true.
+  child (workspace h st i) (join2 (workspace h st i) n) = true.
 Proof.
-  intros Hi [K1 K2]. unfold inside. rewrite npath_join2 by assumption.
-  apply (np_inside_ext (npath (workspace h st i)) [n]). discriminate.
+  intros Hi [K1 K2]. unfold child. rewrite npath_join2 by assumption.
+  apply (np_child_ext (npath (workspace h st i)) n).
 Qed.
 
 Lemma model_ok_files_inside : ok_files_inside (model_obs h st) = true.
 Proof.
-  unfold ok_files_inside. unfold model_obs at 1. cbn [o_insts o_tmp].
+  unfold ok_files_inside.
+  change (o_insts (model_obs h st)) with (map (model_iobs h st) (s_insts st)).
+  change (o_tmp (model_obs h st)) with (s_tmp st).
   rewrite forallb_map. apply forallb_forall. intros i Hi.
   pose proof (G_noslash h st G i Hi) as Hns. pose proof (G_pids h st G i Hi) as Hp.
   apply andb_true_iff. split.
@@ -1063,7 +1086,8 @@ Qed.
 
 Lemma model_ok_files_distinct : ok_files_distinct (model_obs h st) = true.
 Proof.
-  unfold ok_files_distinct. unfold model_obs. cbn [o_insts].
+  unfold ok_files_distinct.
+  change (o_insts (model_obs h st)) with (map (model_iobs h st) (s_insts st)).
   apply andb_true_iff. split.
   - rewrite forallb_map. apply forallb_forall. intros i Hi.
     rewrite o_files_model. apply pairwise_neq_nodup. apply files_nodup. exact Hi.
@@ -1077,7 +1101,8 @@ Qed.
 
 Lemma model_ok_separate : ok_separate (model_obs h st) = true.
 Proof.
-  unfold ok_separate. unfold model_obs. cbn [o_insts].
+  unfold ok_separate.
+  change (o_insts (model_obs h st)) with (map (model_iobs h st) (s_insts st)).
   rewrite pairwise_map. apply (pairwise_intro _ iname); [exact (G_names h st G) |].
   intros i j Hi Hj Hne. rewrite o_files_model.
   change (o_ws (model_iobs h st i)) with (workspace h st i).
@@ -1099,3 +1124,370 @@ Proof.
 Qed.
 
 End Model.
+
+(* ------------------------------------------------------------------------ *)
+(** * Part E2 -- the statements of DESIGN section 5, C10 *)
+
+(** What [inside] says about normal forms. *)
+Lemma inside_spec d p :
+  inside d p = true <-> exists r, r <> [] /\ npath p = ext (npath d) r.
+Proof.
+  unfold inside, np_inside. rewrite andb_true_iff, np_inside_eq_iff, Nat.ltb_lt. split.
+  - intros [[H1 [r Hr]] H2]. exists r. split.
+    + intro E. subst r. rewrite Hr, app_nil_r in H2. lia.
+    + unfold ext. rewrite H1, <- Hr. apply surjective_pairing.
+  - intros [r [H1 H2]]. rewrite H2. unfold ext. simpl. split.
+    + split; [reflexivity | apply prefix_app].
+    + rewrite app_length. destruct r; [congruence | simpl; lia].
+Qed.
+
+Theorem make_safe_path_inside root args :
+  args <> [] -> Forall good (map sanitize args) ->
+  inside root (make_safe_path root args) = true.
+Proof.
+  intros Hne Hg. unfold inside, make_safe_path. rewrite npath_join.
+  - apply (np_inside_ext (npath root)). destruct args; [congruence | discriminate].
+  - rewrite Forall_forall in *. intros c Hc. split; [| apply Hg; exact Hc].
+    apply in_map_iff in Hc. destruct Hc as [a [Ea _]]. subst. apply sanitize_noslash.
+Qed.
+
+(** the workspace is  root/c1  or  root/c1/c2  with sanitised components *)
+Lemma workspace_components h st i :
+  exists c1 rest, ws_key h (s_hashws st) i = c1 :: rest /\ List.length rest <= 1 /\
+                  workspace h st i = join (s_root st) (c1 :: rest).
+Proof.
+  unfold workspace, make_safe_path.
+  change (map sanitize (ws_args h (s_hashws st) i)) with (ws_key h (s_hashws st) i).
+  unfold ws_key, ws_args, ws_shape.
+  destruct (i_combo i); [destruct (s_hashws st) |]; simpl; eexists; eexists;
+    (split; [reflexivity | split; [simpl; lia | reflexivity]]).
+Qed.
+
+Theorem workspace_inside_root h st i :
+  Forall good (ws_key h (s_hashws st) i) -> inside (s_root st) (workspace h st i) = true.
+Proof.
+  intro Hg. unfold workspace. apply make_safe_path_inside; [| exact Hg].
+  intro E. apply (ws_key_nonempty h (s_hashws st) i). unfold ws_key. rewrite E. reflexivity.
+Qed.
+
+Lemma join_normal_form (a b : str) :
+  ~ In SLASH b -> b <> [] -> b <> dot -> b <> dotdot ->
+  npath (join2 a b) = (fst (npath a), snd (npath a) ++ [b]).
+Proof. intros H1 H2 H3 H4. apply npath_join2; [exact H1 | repeat split; assumption]. Qed.
+
+Lemma inside_path_lemma (root : str) (args : list str) :
+  args <> [] ->
+  Forall (fun a => sanitize a <> [] /\ sanitize a <> dot /\ sanitize a <> dotdot) args ->
+  inside root (make_safe_path root args) = true.
+Proof.
+  intros H1 H2. apply make_safe_path_inside; [exact H1 |].
+  apply Forall_forall. intros c Hc. apply in_map_iff in Hc. destruct Hc as [a [E Ha]]. subst.
+  rewrite Forall_forall in H2. exact (H2 a Ha).
+Qed.
+
+Lemma inside_lemma (h : str -> str) (st : study) (i : inst) :
+  (forall c, In c (ws_key h (s_hashws st) i) -> c <> [] /\ c <> dot /\ c <> dotdot) ->
+  (exists c1 rest, ws_key h (s_hashws st) i = c1 :: rest /\ List.length rest <= 1 /\
+                   workspace h st i = join (s_root st) (c1 :: rest)) /\
+  inside (s_root st) (workspace h st i) = true.
+Proof.
+  intro H. split; [apply workspace_components |].
+  apply workspace_inside_root. apply Forall_forall. exact H.
+Qed.
+
+Lemma script_path_jn h st i :
+  script_path h st i = jn (scr_dir h st i, script_name h st i).
+Proof. unfold script_path, jn. rewrite fill_script. reflexivity. Qed.
+
+Lemma script_in_mfiles h st i : In (scr_dir h st i, script_name h st i) (mfiles h st i).
+Proof. left. reflexivity. Qed.
+
+Definition files (h : str -> str) (st : study) (i : inst) : list str := o_files (model_iobs h st i).
+
+Theorem distinct_G10 h st i j :
+  G10 h st -> In i (s_insts st) -> In j (s_insts st) -> iname i <> iname j ->
+  workspace h st i <> workspace h st j /\
+  script_path h st i <> script_path h st j /\
+  inside_eq (workspace h st i) (workspace h st j) = false /\
+  (forall f, In f (files h st j) -> inside_eq (workspace h st i) f = false) /\
+  (forall f g, In f (files h st i) -> In g (files h st j) -> npath f <> npath g).
+Proof.
+  intros G Hi Hj Hne. repeat split.
+  - intro E. apply (unrelated_neq _ _ (wsn_wsn h st G i j Hi Hj Hne)).
+    rewrite <- (npath_workspace h st G i Hi), <- (npath_workspace h st G j Hj), E. reflexivity.
+  - intro E. rewrite !script_path_jn in E.
+    apply (unrelated_neq _ _ (files_unrelated h st G i j _ _ Hi Hj Hne
+             (script_in_mfiles h st i) (script_in_mfiles h st j))).
+    rewrite E. reflexivity.
+  - unfold inside_eq. apply np_inside_eq_false.
+    rewrite (npath_workspace h st G i Hi), (npath_workspace h st G j Hj).
+    apply (wsn_wsn h st G i j Hi Hj Hne).
+  - intros f Hf. unfold files in Hf. rewrite o_files_model in Hf.
+    apply in_map_iff in Hf. destruct Hf as [f' [Ef Hf]]. subst.
+    unfold inside_eq. apply np_inside_eq_false. rewrite (npath_workspace h st G i Hi).
+    apply (ws_file_unrelated h st G i j f' Hi Hj Hne Hf).
+  - intros f g Hf Hg. unfold files in *. rewrite o_files_model in Hf, Hg.
+    apply in_map_iff in Hf. destruct Hf as [f' [Ef Hf]].
+    apply in_map_iff in Hg. destruct Hg as [g' [Eg Hg]]. subst.
+    apply unrelated_neq. apply (files_unrelated h st G i j); assumption.
+Qed.
+
+Theorem distinct_H10 h st i j :
+  H10 h st -> In i (s_insts st) -> In j (s_insts st) -> iname i <> iname j ->
+  workspace h st i <> workspace h st j /\
+  script_path h st i <> script_path h st j /\
+  inside_eq (workspace h st i) (workspace h st j) = false /\
+  (forall f, In f (files h st j) -> inside_eq (workspace h st i) f = false) /\
+  (forall f g, In f (files h st i) -> In g (files h st j) -> npath f <> npath g).
+Proof. intro H. apply distinct_G10. apply H10_G10. exact H. Qed.
+
+(** every file is <directory>/<file name>, file name free of '/' and not "",
+    "." or "..", hence a file directly in that directory; the directory is the
+    workspace, except that scripts go to <tmp>/<digest of the instance name>
+    when a temp directory is in use *)
+Theorem writes_inside h st i :
+  ~ In SLASH (sname h (s_hashws st) i) ->
+  NoDup (i_pids i) /\ Forall is_pid (i_pids i) ->
+  forall f, In f (files h st i) ->
+  exists dir name,
+    f = join2 dir name /\ ~ In SLASH name /\ good name /\ child dir f = true /\
+    (dir = workspace h st i \/
+     (s_tmp st <> [] /\ dir = join2 (s_tmp st) (h (iname i)) /\
+      In f (o_scripts (model_iobs h st i)))).
+Proof.
+  intros Hns Hp f Hf. unfold files in Hf. rewrite o_files_model in Hf.
+  apply in_map_iff in Hf. destruct Hf as [[d n] [Ef Hf]]. subst f.
+  destruct (mfiles_names_ok h st i Hns Hp _ Hf) as [K1 K2]. simpl in K1, K2.
+  exists d, n. unfold jn. simpl fst. simpl snd.
+  split; [reflexivity |]. split; [exact K1 |]. split; [exact K2 |]. split.
+  - unfold child. rewrite npath_join2 by assumption. apply (np_child_ext (npath d) n).
+  - assert (Hscr : forall x, In (d, n) [(scr_dir h st i, x)] ->
+                   In (join2 d n) (o_scripts (model_iobs h st i)) ->
+                   d = workspace h st i \/
+                   s_tmp st <> [] /\ d = join2 (s_tmp st) (h (iname i)) /\
+                   In (join2 d n) (o_scripts (model_iobs h st i))).
+    { intros x [E | []] Hin. inversion E; subst. unfold scr_dir in *.
+      destruct (is_empty (s_tmp st)) eqn:Et; [left; reflexivity |].
+      right. apply is_empty_false in Et. auto. }
+    unfold mfiles in Hf. destruct Hf as [E | Hf].
+    + apply (Hscr (script_name h st i)); [left; auto |].
+      inversion E; subst. rewrite o_scripts_model. left. reflexivity.
+    + apply in_app_or in Hf. destruct Hf as [Hf | Hf].
+      * destruct (i_restart i) eqn:Er; [| destruct Hf].
+        apply (Hscr (restart_name h st i)); [exact Hf |].
+        destruct Hf as [E | []]. inversion E; subst. rewrite o_scripts_model, Er.
+        right. left. reflexivity.
+      * left. apply in_flat_map in Hf. destruct Hf as [p [_ [E | [E | []]]]];
+          inversion E; reflexivity.
+Qed.
+
+(** with hashed workspaces the file names of a parameterised instance are
+    made from the digest, which never contains a '/' *)
+Lemma sname_digest h st i c :
+  s_hashws st = true -> i_combo i = Some c -> is_digest (h c) ->
+  ~ In SLASH (sname h (s_hashws st) i).
+Proof.
+  intros Hh Hc Hd. unfold sname, nickname. rewrite Hc, Hh.
+  destruct (digest_okcomp _ Hd) as [K1 [K2 _]].
+  apply is_empty_false in K2. rewrite K2. exact K1.
+Qed.
+
+(* ------------------------------------------------------------------------ *)
+(** * Part F -- boolean hygiene; refutations outside it *)
+
+Lemma nodup_str_iff l : nodup_str l = true <-> NoDup l.
+Proof.
+  induction l as [|x l IH]; simpl.
+  - split; [constructor | reflexivity].
+  - rewrite andb_true_iff, negb_true_iff, IH. split.
+    + intros [H1 H2]. constructor; [| exact H2]. intro K.
+      assert (existsb (str_eqb x) l = true); [| congruence].
+      apply existsb_exists. exists x. split; [exact K | apply seqb_refl].
+    + intro H. inversion H; subst. split; [| assumption].
+      destruct (existsb (str_eqb x) l) eqn:E; [| reflexivity].
+      apply existsb_exists in E. destruct E as [y [Hy E]]. apply seqb_iff in E. subst. contradiction.
+Qed.
+
+Lemma existsb_false_iff {A} (f : A -> bool) l :
+  existsb f l = false <-> forall x, In x l -> f x = false.
+Proof.
+  split.
+  - intros H x Hx. destruct (f x) eqn:E; [| reflexivity].
+    assert (existsb f l = true) by (apply existsb_exists; exists x; auto). congruence.
+  - intro H. destruct (existsb f l) eqn:E; [| reflexivity].
+    apply existsb_exists in E. destruct E as [x [Hx E]]. rewrite (H x Hx) in E. discriminate.
+Qed.
+
+Lemma hexlike_digest x : hexlike x = true -> is_digest x.
+Proof.
+  unfold hexlike. rewrite andb_true_iff, negb_true_iff, is_empty_false, forallb_forall.
+  intros [H1 H2]. split; [exact H1 | apply Forall_forall; exact H2].
+Qed.
+
+Lemma digest_ok_spec h keys :
+  digest_ok h keys = true ->
+  (forall k, In k keys -> is_digest (h k)) /\
+  (forall a b, In a keys -> In b keys -> h a = h b -> a = b).
+Proof.
+  unfold digest_ok. rewrite andb_true_iff, forallb_forall. intros [H1 H2]. split.
+  - intros k Hk. apply hexlike_digest. apply H1. exact Hk.
+  - intros a b Ha Hb E. destruct (pairwise_elim _ _ H2 a b Ha Hb) as [K | [K _]]; [exact K |].
+    apply orb_true_iff in K. destruct K as [K | K]; [apply seqb_iff; exact K |].
+    apply negb_true_iff, seqb_false_iff in K. contradiction.
+Qed.
+
+Theorem h10b_G10 h st : h10b h st = true -> G10 h st.
+Proof.
+  unfold h10b, wf_study. rewrite !andb_true_iff, !negb_true_iff.
+  intros [[[[[[[Hk Hd] Ht] Hp] Hn] Hc] Hs] Hg].
+  unfold sig_degenerate in Hg. apply orb_false_iff in Hg. destruct Hg as [Hdots Hemp].
+  constructor.
+  - apply nodup_str_iff. exact Hn.
+  - intros i j Hi Hj Hne. unfold sig_collide in Hc. apply negb_false_iff in Hc.
+    destruct (pairwise_elim _ _ Hc i j Hi Hj) as [K | [K _]]; [subst; congruence |].
+    apply orb_true_iff in K. destruct K as [K | K]; [apply seqb_iff in K; contradiction |].
+    apply negb_true_iff, prefixb_false_iff in K. exact K.
+  - intros i Hi. apply Forall_forall. intros c Hc'.
+    unfold sig_dots in Hdots. unfold sig_empty in Hemp.
+    rewrite existsb_false_iff in Hdots, Hemp.
+    specialize (Hdots i Hi). specialize (Hemp i Hi).
+    rewrite existsb_false_iff in Hdots, Hemp.
+    specialize (Hdots c Hc'). specialize (Hemp c Hc').
+    apply orb_false_iff in Hdots. destruct Hdots as [D1 D2].
+    repeat split; [apply is_empty_false | apply seqb_false_iff | apply seqb_false_iff]; assumption.
+  - intros i Hi. unfold sig_slash in Hs. rewrite existsb_false_iff in Hs.
+    apply memN_false. exact (Hs i Hi).
+  - intro E. apply is_empty_false in E.
+    unfold wf_digests in Hd. apply andb_true_iff in Hd. destruct Hd as [_ Hd].
+    rewrite E in Hd. simpl in Hd. apply digest_ok_spec in Hd. destruct Hd as [D1 D2].
+    unfold wf_tmp in Ht. rewrite E in Ht. simpl in Ht.
+    apply andb_true_iff in Ht. destruct Ht as [T1 T2]. apply negb_true_iff in T1, T2.
+    split; [| split; [| split]]; try assumption.
+    + intros i Hi. apply D1. apply in_map. exact Hi.
+    + intros i j Hi Hj. apply D2; apply in_map; assumption.
+  - intros i Hi. unfold wf_pids in Hp. rewrite forallb_forall in Hp.
+    specialize (Hp i Hi). apply andb_true_iff in Hp. destruct Hp as [P1 P2].
+    split; [apply nodup_str_iff; exact P2 |].
+    apply Forall_forall. intros p Hp'. rewrite forallb_forall in P1. specialize (P1 p Hp').
+    apply andb_true_iff in P1. destruct P1 as [Q1 Q2].
+    apply negb_true_iff, is_empty_false in Q1. split; [exact Q1 |].
+    apply Forall_forall. apply forallb_forall. exact Q2.
+Qed.
+
+(** The monitor holds of the model on the whole complement of the known-finding
+    signatures (for well-formed studies). *)
+Theorem h10b_model_ok h st : h10b h st = true -> C10_ok (model_obs h st) = true.
+Proof. intro H. apply model_C10_ok. apply h10b_G10. exact H. Qed.
+
+Theorem H10_model_ok h st : H10 h st -> C10_ok (model_obs h st) = true.
+Proof. intro H. apply model_C10_ok. apply H10_G10. exact H. Qed.
+
+(** A decidable sufficient condition for [H10] (used for the non-vacuity
+    examples): [h10b] plus injectivity of the sanitiser on step names and on
+    each step's combination strings, checked pairwise. *)
+Definition inj_steps_b (st : study) : bool :=
+  forallb (fun i => forallb (fun j =>
+    negb (str_eqb (sanitize (i_step i)) (sanitize (i_step j))) || str_eqb (i_step i) (i_step j))
+    (s_insts st)) (s_insts st).
+
+Definition inj_combos_b (h : str -> str) (st : study) : bool :=
+  forallb (fun i => forallb (fun j =>
+    match i_combo i, i_combo j with
+    | Some ci, Some cj =>
+        negb (str_eqb (i_step i) (i_step j)) ||
+        negb (str_eqb (sanitize (wkey h (s_hashws st) ci)) (sanitize (wkey h (s_hashws st) cj))) ||
+        str_eqb ci cj
+    | _, _ => true
+    end) (s_insts st)) (s_insts st).
+
+Definition H10b (h : str -> str) (st : study) : bool :=
+  h10b h st && inj_steps_b st && inj_combos_b h st.
+
+Theorem H10b_H10 h st : H10b h st = true -> H10 h st.
+Proof.
+  unfold H10b. rewrite !andb_true_iff. intros [[Hb Hs] Hc].
+  pose proof (h10b_G10 h st Hb) as G. destruct G as [Gn Gs Gg Gsl Gt Gp].
+  constructor; try assumption.
+  - intros i j Hi Hj E. unfold h10b, wf_study in Hb. rewrite !andb_true_iff in Hb.
+    destruct Hb as [[[[[[[Hk _] _] _] _] _] _] _]. unfold wf_kinds in Hk.
+    rewrite forallb_forall in Hk. specialize (Hk i Hi). rewrite forallb_forall in Hk.
+    specialize (Hk j Hj). apply orb_true_iff in Hk. destruct Hk as [Hk | Hk].
+    + apply negb_true_iff, seqb_false_iff in Hk. contradiction.
+    + apply eqb_prop in Hk. destruct (i_combo i), (i_combo j); simpl in Hk;
+        try discriminate; split; intro; congruence.
+  - intros i j Hi Hj E. unfold inj_steps_b in Hs. rewrite forallb_forall in Hs.
+    specialize (Hs i Hi). rewrite forallb_forall in Hs. specialize (Hs j Hj).
+    apply orb_true_iff in Hs. destruct Hs as [Hs | Hs]; [| apply seqb_iff; exact Hs].
+    apply negb_true_iff, seqb_false_iff in Hs. contradiction.
+  - intros i j ci cj Hi Hj Est Ei Ej E. unfold inj_combos_b in Hc. rewrite forallb_forall in Hc.
+    specialize (Hc i Hi). rewrite forallb_forall in Hc. specialize (Hc j Hj).
+    rewrite Ei, Ej in Hc. rewrite !orb_true_iff in Hc. destruct Hc as [[Hc | Hc] | Hc].
+    + apply negb_true_iff, seqb_false_iff in Hc. contradiction.
+    + apply negb_true_iff, seqb_false_iff in Hc. contradiction.
+    + apply seqb_iff. exact Hc.
+Qed.
+
+(* ---- witnesses ---- *)
+
+Local Open Scope string_scope.
+Definition noh : str -> str := fun _ => [].
+Definition I0 (step : string) (combo : option string) : inst :=
+  mkinst (s step) (match combo with Some c => Some (s c) | None => None end) true [s "41"; s "42"].
+
+(** a hygienic study: two steps, one expanded over two combinations *)
+Definition ex_study : study :=
+  mkstudy (s "/R/study") [] false ALocal
+          [I0 "pre" None; I0 "run" (Some "X.1.Y.a"); I0 "run" (Some "X.2.Y.b")].
+
+(** the same with hashed workspaces and a temp directory; digests as a table *)
+Definition ex_table : list (str * str) :=
+  [(s "X.1.Y.a", s "0a1b"); (s "X.2.Y.b", s "9f3c"); (s "pre", s "aa01");
+   (s "run_X.1.Y.a", s "bb02"); (s "run_X.2.Y.b", s "cc03")].
+Definition ex_study_hash : study :=
+  mkstudy (s "/R/study") (s "/T/tmpd") true ASlurm
+          [I0 "pre" None; I0 "run" (Some "X.1.Y.a"); I0 "run" (Some "X.2.Y.b")].
+
+Lemma ex_study_H10 : H10 noh ex_study.
+Proof. apply H10b_H10. vm_compute. reflexivity. Qed.
+Lemma ex_study_hash_H10 : H10 (lookup ex_table) ex_study_hash.
+Proof. apply H10b_H10. vm_compute. reflexivity. Qed.
+
+(** K1a: labels that differ only in a stripped character share the workspace *)
+Definition k1a_study : study :=
+  mkstudy (s "/R/study") [] false ALocal [I0 "run" (Some "a*b"); I0 "run" (Some "ab")].
+Lemma k1a_refuted :
+  wf_study noh k1a_study = true /\ sig_collide noh k1a_study = true /\
+  C10_ok (model_obs noh k1a_study) = false.
+Proof. vm_compute. auto. Qed.
+
+(** K1b: a '/' in a label: the script is not a file directly in the workspace *)
+Definition k1b_study : study :=
+  mkstudy (s "/R/study") [] false ALocal [I0 "run" (Some "a/b")].
+Lemma k1b_refuted :
+  wf_study noh k1b_study = true /\ sig_slash noh k1b_study = true /\
+  sig_collide noh k1b_study = false /\ sig_degenerate noh k1b_study = false /\
+  C10_ok (model_obs noh k1b_study) = false.
+Proof. vm_compute. auto 6. Qed.
+
+(** K1c: a value ".." resolves to the study directory; a label that sanitises
+    to the empty string resolves to the step directory, above its siblings *)
+Definition k1c_study : study :=
+  mkstudy (s "/R/study") [] false ALocal [I0 "run" (Some "..")].
+Definition k1c_study_empty : study :=
+  mkstudy (s "/R/study") [] false ALocal [I0 "run" (Some "*"); I0 "run" (Some "a")].
+Lemma k1c_refuted :
+  wf_study noh k1c_study = true /\ sig_degenerate noh k1c_study = true /\
+  sig_collide noh k1c_study = false /\ sig_slash noh k1c_study = false /\
+  C10_ok (model_obs noh k1c_study) = false.
+Proof. vm_compute. auto 6. Qed.
+Lemma k1c_refuted_empty :
+  wf_study noh k1c_study_empty = true /\ sig_degenerate noh k1c_study_empty = true /\
+  sig_collide noh k1c_study_empty = false /\ sig_slash noh k1c_study_empty = false /\
+  C10_ok (model_obs noh k1c_study_empty) = false.
+Proof. vm_compute. auto 6. Qed.
+
+Lemma ex_satisfiable : H10 noh ex_study /\ List.length (s_insts ex_study) = 3.
+Proof. split; [exact ex_study_H10 | reflexivity]. Qed.
+Lemma ex_satisfiable_hash :
+  H10 (lookup ex_table) ex_study_hash /\ s_hashws ex_study_hash = true /\ s_tmp ex_study_hash <> [].
+Proof. split; [exact ex_study_hash_H10 | split; [reflexivity | discriminate]]. Qed.
